@@ -73,6 +73,14 @@ func (c *collection) updateWithFilter(
 		return nil, err
 	}
 
+	// If the plan isn't properly closed at any exit point log the error.
+	// This must be registered before Init, which may already open iterators.
+	defer func() {
+		if err := selectionPlan.Close(); err != nil {
+			log.ErrorContextE(ctx, "Failed to close the selection plan, after filter update", err)
+		}
+	}()
+
 	err = selectionPlan.Init()
 	if err != nil {
 		return nil, err
@@ -81,13 +89,6 @@ func (c *collection) updateWithFilter(
 	if err = selectionPlan.Start(); err != nil {
 		return nil, err
 	}
-
-	// If the plan isn't properly closed at any exit point log the error.
-	defer func() {
-		if err := selectionPlan.Close(); err != nil {
-			log.ErrorContextE(ctx, "Failed to close the selection plan, after filter update", err)
-		}
-	}()
 
 	results := &client.UpdateResult{
 		DocIDs: make([]string, 0),
